@@ -1,0 +1,93 @@
+//go:build verif
+
+package sql
+
+import (
+	"context"
+	stdsql "database/sql"
+	"sort"
+	"strconv"
+
+	"github.com/jdillenkofer/pithos/internal/storage/database/repository/bucket"
+	"github.com/jdillenkofer/pithos/internal/storage/database/repository/object"
+	"github.com/jdillenkofer/pithos/internal/storage/database/repository/part"
+	"github.com/jdillenkofer/pithos/internal/storage/metadatapart/metadatastore"
+	"github.com/oklog/ulid/v2"
+	"go.opentelemetry.io/otel"
+)
+
+// Ghost scenarios (bounded stand-ins, see zz_contracts_verif.go): the real listing functions of the SQL metadata store
+// over repositories that answer from memory.
+
+type verifBucketRepo struct{ bucket.Repository }
+
+func (verifBucketRepo) ExistsBucketByName(ctx context.Context, tx *stdsql.Tx, bucketName metadatastore.BucketName) (*bool, error) {
+	t := true
+	return &t, nil
+}
+
+type verifObjectRepo struct {
+	object.Repository
+	upload *object.Entity
+}
+
+func (r verifObjectRepo) FindObjectByBucketNameAndKeyAndUploadId(ctx context.Context, tx *stdsql.Tx, bucketName metadatastore.BucketName, key metadatastore.ObjectKey, uploadId metadatastore.UploadId) (*object.Entity, error) {
+	return r.upload, nil
+}
+
+type verifPartRepo struct {
+	part.Repository
+	rows []part.Entity
+}
+
+func (r verifPartRepo) FindPartsByObjectIdOrderBySequenceNumberAsc(ctx context.Context, tx *stdsql.Tx, objectId ulid.ULID) ([]part.Entity, error) {
+	return r.rows, nil
+}
+
+// verifListPartsPagination (ghost scenario, bounded): for an upload whose part numbers are any increasing sequence
+// (sparse or dense), following NextPartNumberMarker page by page, with any page size, lists every part exactly once, in
+// order, and the last page - and only it - is not truncated.
+func verifListPartsPagination(gaps []uint8, pageSize uint8) bool {
+	id := ulid.Make()
+	var rows []part.Entity
+	n := 0
+	for _, g := range gaps {
+		n += int(g%5) + 1 // part numbers 1.., with gaps of up to four
+		rows = append(rows, part.Entity{ObjectId: id, ETag: strconv.Itoa(n), SequenceNumber: n, Size: int64(n)})
+	}
+	sort.Slice(rows, func(i, j int) bool { return rows[i].SequenceNumber < rows[j].SequenceNumber })
+	sms := &sqlMetadataStore{
+		bucketRepository: verifBucketRepo{},
+		objectRepository: verifObjectRepo{upload: &object.Entity{Id: &id, UploadStatus: object.UploadStatusPending}},
+		partRepository:   verifPartRepo{rows: rows},
+		tracer:           otel.Tracer("verif"),
+	}
+	max := int32(pageSize%6) + 1
+	var marker *string
+	var seen []int32
+	for page := 0; page <= len(rows)+1; page++ {
+		res, err := sms.ListParts(context.Background(), nil, metadatastore.MustNewBucketName("bucket"), metadatastore.MustNewObjectKey("key"), metadatastore.UploadId{}, metadatastore.ListPartsOptions{PartNumberMarker: marker, MaxParts: max})
+		if err != nil || res == nil || len(res.Parts) > int(max) {
+			return false
+		}
+		for _, p := range res.Parts {
+			seen = append(seen, p.PartNumber)
+		}
+		if !res.IsTruncated {
+			break
+		}
+		if res.NextPartNumberMarker == nil || len(res.Parts) == 0 {
+			return false
+		}
+		marker = res.NextPartNumberMarker
+	}
+	if len(seen) != len(rows) {
+		return false
+	}
+	for i := range rows {
+		if seen[i] != int32(rows[i].SequenceNumber) {
+			return false
+		}
+	}
+	return true
+}
